@@ -319,3 +319,45 @@ Proof.
   - reflexivity.
   - intros s s' W A B. rewrite (tr_abs_fun s s' W A B). reflexivity.
 Qed.
+
+(* ---- the four lagging maps, n >= 0: evaluating on a prefix yields the prefix -------------------------- *)
+Theorem shift_prefix {X} (n : Z) (v : X) (xs : list X) k :
+  (0 <= n)%Z -> exists r, shift n v xs = Ok r /\ shift n v (firstn k xs) = Ok (firstn k r).
+Proof.
+  intros Hn. apply (positional_prefix (shift n v) (shift_at n v)).
+  - intros l. exact (shift_positional n v l).
+  - intros l k' i Hk Hi. apply shift_at_firstn; assumption.
+Qed.
+
+Theorem vshift_prefix {X I} (d : NullDict X I) (n : Z) (value : option X) (v : X) (xs : list X) k :
+  (0 <= n)%Z -> or_none d value = Ok v ->
+  exists r, vshift d n value xs = Ok r /\ vshift d n value (firstn k xs) = Ok (firstn k r).
+Proof.
+  intros Hn Hv. apply (positional_prefix (vshift d n value) (shift_at n v)).
+  - intros l. exact (vshift_positional d n value l Hv).
+  - intros l k' i Hk Hi. apply shift_at_firstn; assumption.
+Qed.
+
+Theorem vdiff_prefix {X I} (d : NullDict X I) (sub : X -> X -> X) (n : Z) (value : option X) (v : X)
+        (xs : list X) k :
+  (0 <= n)%Z -> or_none d value = Ok v ->
+  exists r, vdiff d sub n value xs = Ok r /\ vdiff d sub n value (firstn k xs) = Ok (firstn k r).
+Proof.
+  intros Hn Hv. apply (positional_prefix (vdiff d sub n value) (diff_at sub n v)).
+  - intros l. exact (vdiff_positional d sub n value l Hv).
+  - intros l k' i Hk Hi. apply diff_at_firstn; assumption.
+Qed.
+
+Theorem vpct_change_prefix {X I F} (d : NullDict X I) (o : FOps F) (cast : X -> F) (n : Z) (xs : list X) k :
+  (forall v, fisnan o (cast v) = is_none d v) -> fisnan o (fnanv o) = true -> (0 <= n)%Z ->
+  exists r, vpct_change d o cast n xs = Ok r /\ vpct_change d o cast n (firstn k xs) = Ok (firstn k r).
+Proof.
+  intros H1 H2 Hn. apply (positional_prefix (vpct_change d o cast n) (pct_at d o cast n)).
+  - intros l. exact (vpct_change_positional d o cast H1 H2 n l).
+  - intros l k' i Hk Hi. apply pct_at_firstn; assumption.
+Qed.
+
+(* with a negative lag the law fails: output i reads x[i+|n|], which a prefix may not contain *)
+Lemma shift_negative_lag_looks_ahead :
+  exists r, shift (-1)%Z 0%Z [1; 2; 3]%Z = Ok r /\ shift (-1)%Z 0%Z (firstn 2 [1; 2; 3]%Z) <> Ok (firstn 2 r).
+Proof. eexists. split; [reflexivity|]. cbn. discriminate. Qed.
